@@ -1,9 +1,48 @@
 PROPERTY = "C14"
 LEVEL = "proof"
-FUNCTIONS = ["sqfs_super_init", "sqfs_super_write", "sqfs_super_read"]
-TRUSTED = []
-ASSUMPTIONS = []
-EXPLANATION = ""
+FUNCTIONS = [
+    "sqfs_super_init", "sqfs_super_write", "sqfs_super_read",
+    "sqfs_id_table_read (entry test)",
+    "sqfs_writer_init", "sqfs_writer_finish", "padd_sqfs", "print_statistics",
+    "write_block (meta_writer.c)", "sqfs_write_table",
+    "write_data_block", "deduplicate_blocks", "store_block_location",
+    "sqfs_generic_write_options",
+    "write_location_table", "sqfs_xattr_writer_flush",
+]
+TRUSTED = [
+    "sqfs_file_t contract (harness/C14/c14_env.h): get_size returns the tracked size; write_at fails or sets size to max(size, off+n) (as stdio_write_at does), fails when off+n > 2^62; truncate fails or sets the size; read_at never changes the file",
+    "sqfs_file_open on the packer's output (O_CREAT|O_EXCL or O_TRUNC, lib/sqfs/src/io/unix.c) yields an empty file (tracked size 0)",
+    "one write_at(0, 96 bytes) is one crash-atomic step, except for cut positions k < 56 which are proved unreadable (torn_super)",
+    "metadata writer as seen by table writers (append/flush): appends whole blocks at the end of the file via write_block (proved in ao_write_block) or fails",
+    "compressor do_block contract (DESIGN section 3); compressor write_options hook = sqfs_generic_write_options or 'return 0'",
+    "constructors called by sqfs_writer_init (block writer, fragment table, block processor, ID table, xattr writer, metadata writers, dir writer, compressors, fstree) allocate and take references only; they do not write to the output file (harness/C14/writer_env.h)",
+    "stage contracts of sqfs_writer_finish (harness/C14/finish.c): block processor finish, sqfs_serialize_fstree, fragment/export/ID table writers, xattr flush append to the file or fail and record table starts inside what they appended - the write sites of their real code are the ao_* / xattr_flush harnesses",
+    "array_append contract in ao_block_writer (capacity available: stores the element; or fails)",
+    "check_file_range_equal only reads",
+    "static helpers write_kv_pairs / write_id_table / alloc_location_table of xattr_writer_flush.c replaced by contracts (append-only or fail); their bodies reach the file only through the metadata writer",
+    "CBMC models of malloc/calloc/free/memset/memcpy; stdio output (fputs/fputc/printf/perror) has no effect on the file",
+]
+ASSUMPTIONS = [
+    "crash model = process kill between two output-file system calls; kernel write-back ordering / fsync are outside (no fsync is issued by the packers)",
+    "a cut of the final 96 byte superblock write at k >= 56 bytes (possible only if pwrite returns short on a 96 byte write at offset 0) is not covered: the ID table start is final there and rejection would depend on the other table readers",
+    "tracked file size and recorded block offsets <= 2^62 (off_t); table sizes <= 2^40 bytes, block list <= 2^20 entries, xattr location list <= 2^32 entries in the loop-contract harnesses (symbolic below the cap)",
+    "number of xattr sets and of inodes fit their 32 bit on-disk fields, num_jobs/max_backlog fit 32 bit, devblksize in [1, 2^32] (narrowing conversions are C03 matters, excluded by requires)",
+    "'final size is a multiple of devblksize' (C03.finish.layout) is not claimed here",
+    "the block processor, serialize_fstree, dir writer and id/frag table front ends are covered through the write sites they funnel into (write_block, sqfs_write_table, write_data_block); that they issue no other write_at/truncate is a syntactic fact of the tree (grep, see EXPLANATION), not a proof obligation here; the C13 harnesses of those functions run against the same file contract, so a direct write added there is checked against C14.append_only.* in the C13 run",
+    "cleanup.c (unlink on failure) is C13.cleanup.unlinks",
+    "xattr_flush runs under --dfcc: cbmc --cover cannot see its cover points; reachability is shown by the self-test mutants",
+]
+EXPLANATION = ("three lemmas: (1) the provisional superblock written by sqfs_writer_init is rejected by "
+               "sqfs_super_read for all arguments and stays so whatever is appended (init_unreadable, "
+               "writer_init, idtable_entry, torn_super); (2) every write_at/truncate call site in the writer "
+               "path (meta_writer.c write_block, write_table.c, block_writer.c, comp/compressor.c, "
+               "xattr_writer_flush.c, finish.c padd_sqfs - the complete list of `grep write_at|truncate` "
+               "outside lib/sqfs/src/io and write_super.c) appends at the current end of file >= 96 and "
+               "never truncates below 96, checked by the file contract at the call site; (3) in "
+               "sqfs_writer_finish the superblock write happens once, after all stages succeeded, with "
+               "bytes_used = file size and all table starts inside, and only zero padding follows. "
+               "Every prefix of the output write log therefore has the provisional superblock at 0..95 "
+               "or is the complete image.")
 
 _FP_FILE = {"write_at": "c14_write_at", "get_size": "c14_get_size",
             "truncate": "c14_truncate", "read_at": "c14_read_at"}
@@ -13,6 +52,18 @@ HARNESSES = [
          fp={"write_at": "iu_write_at", "read_at": "iu_read_at"},
          unwind=22, timeout=300,
          cases=[dict(id="all", tier="quick")]),
+    dict(name="idtable_entry", file="idtable_entry.c", label="proved",
+         fp={"destroy": "id_destroy_stub", "copy": "id_copy_stub"},
+         unwind=22, timeout=300, cases=[dict(id="all", tier="quick")]),
+    dict(name="torn_super", file="torn_super.c", label="proved",
+         fp={"destroy": "id_destroy_stub", "copy": "id_copy_stub",
+             "write_at": "ts_write_at", "read_at": "ts_read_at"},
+         unwind=98, timeout=600, cases=[dict(id="all", tier="quick")]),
+    dict(name="writer_init", file="writer_init.c", label="proved",
+         fp={"write_at": "c14_write_at", "read_at": "rd_read_at",
+             "write_options": "c14_write_options",
+             "destroy": ["c14_comp_destroy", "c14_outfile_destroy"]},
+         unwind=22, timeout=600, cases=[dict(id="all", tier="quick")]),
     dict(name="finish", file="finish.c", label="proved",
          fp=dict(_FP_FILE, get_block_count="c14_get_block_count"),
          timeout=600, cases=[dict(id="all", tier="quick")]),
